@@ -7,9 +7,11 @@ reachable from a fresh executor by SOME action sequence, so a theorem about all 
 is a theorem about every schedule.  Invariants and helper lemmas: Lemmas/C18.lean.
 `accepted` = tasks whose send completed (exactly the calls that return nil, see `C18_accepted_iff`),
 `started` / `finished` = tasks in the order a worker took them / their Run ended.
-Not covered (see conf/C18.json): liveness; a Shutdown that finds the executor not running.
+Liveness: `C18_no_stuck` + `C18_progress` (a measure that EVERY action decreases; definitions in Lemmas/C18Live.lean)
++ `C18_shutdown_drains`; assumed: an enabled action of a goroutine is eventually taken, task bodies return.
+Not covered (see conf/C18.json): a Shutdown that finds the executor not running.
 -/
-import Fatchoy.Lemmas.C18
+import Fatchoy.Lemmas.C18Live
 namespace Fatchoy.C18
 
 /-- the regenerated facts satisfy the side-conditions: distinct state words, per-task recover, ≥ 1 worker -/
@@ -214,6 +216,71 @@ theorem C18_accept_returns_rendezvous (P : Params) (hv : Valid P) {s : St} (hr :
   · exact getElem?_set_self' i4
   · exact getElem?_set_self' (l := s.workers) hw
 
+/-! ### liveness (Lemmas/C18Live.lean: `mu`, `Act.internal`, `Unfinished`, `TaskRunning`, `Quiescent`) -/
+
+/-- no stuck state, under every schedule: in every reachable state in which something is left to do that is not
+purely the environment's — an Execute call that has begun and not returned (in `start()`, spinning, at `RLock`, at
+its check, blocked in its send, at `RUnlock`), a worker before its `ready <-` or draining, an idle worker although
+`done` is closed, a task in the queue, a Shutdown call under way (`called = true`: including one that waits in
+`guard.Lock()`) — some action of the executor's own goroutines is enabled, or a worker is inside a task body (then
+the task, i.e. the environment, has a move: `finish`).  "Internal" excludes: a new Execute call beginning, `finish`,
+Shutdown being called, and — because Go's RWMutex prefers a waiting writer — an `RLock` while Shutdown waits for the
+lock; so the witness is a step the real primitives allow too. -/
+theorem C18_no_stuck (P : Params) (hv : Valid P) (called : Bool) {s : St} (hr : Reach P s) (hu : Unfinished called s) :
+    (∃ a, Act.internal called s a = true ∧ (step P s a).isSome = true) ∨ (∃ w ∈ s.workers, w.task?.isSome = true) :=
+  no_stuck P called (reach_inv P hv hr) (reach_invL P hv hr) hu
+
+/-- progress under EVERY interleaving.  `mu` (a natural number) is strictly decreased by every action of the LTS —
+internal ones and the environment's (a call beginning, a task returning, Shutdown being called) alike; the model has a
+fixed finite set of Execute calls (`subs`), so "no new submissions" is part of the state and the not-yet-begun calls
+are paid for in `mu`.  Hence (1) every action sequence from `s` has at most `mu s` actions — no livelock, no infinite
+spinning — and (2) when it ends in a state where no internal action is enabled and no task body is running
+(`Quiescent`; the only assumption on the scheduler is that an enabled action of some goroutine is eventually taken,
+and on tasks that they return), then every Execute call that has begun has returned, the queue is empty and every
+accepted task has been started and has finished exactly once, every worker is parked in its main select (with `done`
+still open) or has exited, and if Shutdown was called it has returned (`ret true`: by `C18_shutdown` all `n` workers
+have exited and the state is Terminated; `ret false`: it found the executor not running). -/
+theorem C18_progress (P : Params) (hv : Valid P) (called : Bool) {s : St} (hr : Reach P s) (acts : List Act) (s' : St)
+    (hrun : runActs P s acts = some s') :
+    acts.length + mu s' ≤ mu s ∧
+    (Quiescent P called s' →
+      (∀ pc ∈ s'.subs, pc = .idle ∨ pc = .retOk ∨ pc = .retErr) ∧
+      (s'.queue = [] ∧ ∀ t ∈ s'.accepted, s'.started.count t = 1 ∧ s'.finished.count t = 1) ∧
+      ((∀ w ∈ s'.workers, w = .idle ∨ w = .exited) ∧ (WPC.idle ∈ s'.workers → s'.done = false)) ∧
+      (called = true → ∃ b, s'.closer = .ret b)) := by
+  have hr' := reach_runActs P acts hr hrun
+  exact ⟨mu_run P acts hrun, quiescent_done P called (reach_inv P hv hr') (reach_invL P hv hr')⟩
+
+/-- one step of any goroutine or of the environment strictly decreases the measure (the lemma behind `C18_progress`,
+stated for single steps from ANY state, reachable or not) -/
+theorem C18_measure (P : Params) {s s' : St} (a : Act) (hs : step P s a = some s') : mu s' < mu s :=
+  mu_step P hs
+
+/-- Shutdown drains: once Shutdown has returned, every Execute call that returned nil — or will ever return nil in
+any continuation, e.g. a call that raced the Shutdown and was still between its send and its return — has had its
+task run to its end exactly once, before Shutdown returned; and a call that had not got its task in by then is
+refused (it never returns nil). -/
+theorem C18_shutdown_drains (P : Params) (hv : Valid P) {s : St} (hr : Reach P s) (hq : s.closer = .ret true) :
+    (∀ t ∈ s.accepted, s.started.count t = 1 ∧ s.finished.count t = 1) ∧
+    ∀ s', Steps P s s' → ∀ i,
+      (s'.subs[i]? = some .retOk ∨ s'.subs[i]? = some .unlockOk → i ∈ s.accepted ∧ s.finished.count i = 1) ∧
+      (i ∉ s.accepted → s'.subs[i]? ≠ some .retOk ∧ i ∉ s'.started) := by
+  have h1 := (C18_once P hv hr).2.2.2.2 hq
+  refine ⟨h1, ?_⟩
+  intro s' hs' i
+  have hr' := reach_steps P hr hs'
+  have hq' := (quiet_steps P hv (reach_inv P hv hr) hq hs').2
+  have hacc := C18_accepted_iff P hv hr' i
+  rw [hq'.2.2.1] at hacc
+  refine ⟨?_, ?_⟩
+  · intro hi
+    have := hacc.mpr (hi.symm)
+    exact ⟨this, (h1 i this).2⟩
+  · intro hn
+    refine ⟨fun h' => hn (hacc.mpr (Or.inr h')), ?_⟩
+    rw [hq'.1]
+    exact fun h' => hn ((C18_once P hv hr).2.2.2.1 i h')
+
 /-! ### non-vacuity: a concrete schedule (Lemmas/C18.lean, `demoPrefix`, `demoShutdown`) -/
 
 /-- the hypotheses of `C18_once`/`C18_shutdown` are met by a reachable state in which Shutdown has returned
@@ -227,5 +294,27 @@ there is room again and a fourth call gets through (test of one schedule) -/
 example : ∃ s, Reach params s ∧ s.st = .running ∧ s.closer.holds = false ∧ s.queue.length < s.cap ∧
     s.subs[3]? = some .idle ∧ s.workers = [.run 2, .run 1] ∧ s.finished = [0] :=
   ⟨_, reach_runActs params (demoPrefix ++ [.finish 0 .panic, .take 0]) (Reach.init 2 1 4) (by rfl), by decide⟩
+
+/-- `C18_no_stuck`: Shutdown is in `wg.Wait()`, both workers are inside task bodies and task 2 is queued — the state
+is `Unfinished` (a queued task, Shutdown under way) and here it is the environment (the two tasks) that has to move;
+its measure is 39 (test of one schedule) -/
+example : ∃ s, Reach params s ∧ Unfinished true s ∧ s.closer = .wait ∧ s.queue = [2] ∧ s.workers = [.run 0, .run 1] ∧
+    mu s = 39 :=
+  ⟨_, reach_runActs params (demoPrefix ++ demoShutdown.take 4) (Reach.init 2 1 4) (by rfl),
+    Or.inr (Or.inr (Or.inr (Or.inl (by decide)))), by decide⟩
+
+/-- ... and one action later (task 0 has panicked and returned) worker 0 is back in its select with task 2 queued:
+`take 0` is an enabled internal action (test of one schedule) -/
+example : ∃ s, Reach params s ∧ Unfinished true s ∧ Act.internal true s (.take 0) = true ∧
+    (step params s (.take 0)).isSome = true :=
+  ⟨_, reach_runActs params (demoPrefix ++ demoShutdown.take 5) (Reach.init 2 1 4) (by rfl),
+    Or.inr (Or.inr (Or.inr (Or.inl (by decide)))), by decide⟩
+
+/-- `C18_progress`: the whole demo schedule — 42 actions from a fresh executor with measure 108 to a `Quiescent`
+state with measure 25 (= the one Execute call that never began): Shutdown has returned, tasks 0, 1, 2 have finished
+(test of one schedule) -/
+example : ∃ s', runActs params (mkInit params 2 1 4) (demoPrefix ++ demoShutdown) = some s' ∧ Quiescent params true s' ∧
+    (demoPrefix ++ demoShutdown).length = 42 ∧ mu (mkInit params 2 1 4) = 108 ∧ mu s' = 25 ∧ s'.finished = [0, 1, 2] :=
+  ⟨demoEnd, demoEnd_run, demoEnd_quiescent, by decide⟩
 
 end Fatchoy.C18
